@@ -113,13 +113,15 @@ def _root_.Strengths.Operand.sysDim : Operand → Option (Sys × Dim)
   | .val x => some (x.u.sys, x.u.dim)
   | .arr x => some (x.u.sys, x.u.dim)
 
-/-- values and magnitudes of `o` as the method of `self` sees them (converted to `self`'s system) -/
-def seenFrom (self : Operand) (o : Operand) (mo : List Rat) : List Rat × List Rat :=
+/-- values and magnitudes of `o` as the method of `self` sees them (converted to `self`'s system), and
+the conversion factor with its three per-base powers (they are computed in doubles too) -/
+def seenFrom (self : Operand) (o : Operand) (mo : List Rat) : List Rat × List Rat × List Rat :=
   match self.sysDim, o.sysDim with
   | some (s, _), some (so, d) =>
     let f := convFactor so s d
-    (o.values.map (· * f), mo.map (· * f))
-  | _, _ => (o.values, mo)
+    (o.values.map (· * f), mo.map (· * f),
+     [f, (so.sSpace / s.sSpace) ^ d.space, (so.sTime / s.sTime) ^ d.time, (so.sQty / s.sQty) ^ d.qty])
+  | _, _ => (o.values, mo, [])
 
 def bget (l : List Rat) (i : Nat) : Rat := if l.length = 1 then l.getD 0 0 else l.getD i 0
 
@@ -134,9 +136,9 @@ def rmax (a b : Rat) : Rat := if a ≥ b then a else b
 /-- magnitudes / margins of one binary node, from the operand values seen in the result's system -/
 def binDiag (op : BinOp) (x y : Operand) (mx my : List Rat) (d : Diag) : Diag :=
   let selfIsLeft := match x with | .num _ => (match y with | .num _ => true | _ => false) | _ => true
-  let (A, MA) := if selfIsLeft then (x.values, mx) else seenFrom y x mx
-  let (B, MB) := if selfIsLeft then seenFrom x y my else (y.values, my)
-  let d := (d.see A).see B
+  let (A, MA, FA) := if selfIsLeft then (x.values, mx, []) else seenFrom y x mx
+  let (B, MB, FB) := if selfIsLeft then seenFrom x y my else (y.values, my, [])
+  let d := (((d.see A).see B).see FA).see FB
   let n := if x.isArr then A.length else if y.isArr then B.length else 1
   let idx := List.range n
   let zerodiv := match op with
@@ -158,7 +160,10 @@ def binDiag (op : BinOp) (x y : Operand) (mx my : List Rat) (d : Diag) : Diag :=
         if b = 0 ∨ mb = 0 then 0
         else
           let c1 := rabs b / mb
-          let c2 := distInt (a / b) / rmax 1 (ma * mb / (b * b))
+          let mq := ma * mb / (b * b)
+          -- the quotient is within ~1e-15·mq of the double one; its margin is held to 1e-9·mq (reported ×1000,
+          -- the harness threshold being 1e-6)
+          let c2 := if mq = 0 then 1 else 1000 * distInt (a / b) / mq
           if c1 ≤ c2 then c1 else c2
       | _ => 1
     if c < m then c else m) d.margin
@@ -246,23 +251,24 @@ def opExpr : Handler := fun j => do
     | .error e => return Json.mkObj (("error", Json.str (errName e)) :: diagFields d)
     | .ok res =>
       -- margin of the comparison itself: |a - b'| relative to the magnitudes, scalars only
-      let (d, exact) := match ra, rb with
+      let (d, cmargin, exact) := match ra, rb with
         | .ok x, .ok y =>
-          if x.isArr || y.isArr then (d, false) else
+          if x.isArr || y.isArr then (d, (1 : Rat), false) else
           let selfIsLeft := match x with | .num _ => (match y with | .num _ => true | _ => false) | _ => true
-          let (A, MA) := if selfIsLeft then (x.values, da.mags) else seenFrom y x da.mags
-          let (B, MB) := if selfIsLeft then seenFrom x y db.mags else (y.values, db.mags)
+          let (A, MA, FA) := if selfIsLeft then (x.values, da.mags, []) else seenFrom y x da.mags
+          let (B, MB, FB) := if selfIsLeft then seenFrom x y db.mags else (y.values, db.mags, [])
+          let d := (((d.see A).see B).see FA).see FB
           let a0 := bget A 0; let b0 := bget B 0; let m := bget MA 0 + bget MB 0
           let sameDim := match x.sysDim, y.sysDim with
             | some (_, d1), some (_, d2) => d1 == d2
             | _, _ => true
-          if !sameDim then (d, false)
-          else (d.withMargin (if m = 0 then 0 else rabs (a0 - b0) / m), a0 == b0)
-        | _, _ => (d, false)
+          if !sameDim then (d, (1 : Rat), false)
+          else (d, (if m = 0 then 0 else rabs (a0 - b0) / m), a0 == b0)
+        | _, _ => (d, 1, false)
       let rj := match res with
         | .bool bb => Json.mkObj [("t", "bool"), ("b", Json.bool bb)]
         | .excObject => Json.mkObj [("t", "exc")]
-      return Json.mkObj (("ok", rj) :: ("cmp_exact", Json.bool exact) :: diagFields d)
+      return Json.mkObj (("ok", rj) :: ("cmp_exact", Json.bool exact) :: ("cmp_margin", ratJson cmargin) :: diagFields d)
 
 def unitsArithOps : List (String × Handler) := [("expr", opExpr)]
 
